@@ -414,6 +414,27 @@ def call_method(fr, recv: Any, name: str, args: list, kwargs: dict, node: ast.AS
                 tail += list(pai.as_sstr(f_).pieces)
             rest = pai._simplify(SStr(tail))
             return full[:maxsplit] + [rest]
+        if name in ("partition", "rpartition"):
+            sep = _c(args[0])
+            if s.is_concrete():
+                return getattr(s.concrete(), name)(sep)
+            if len(sep) != 1:
+                raise AnalysisError(f"{name} on a multi-character separator of a symbolic string")
+            for p_ in s.pieces:
+                if isinstance(p_, pai.av.Atom) and sep not in p_.excludes:
+                    raise AnalysisError(f"{name} undecided: {p_.describe()} may contain {sep!r}")
+                if not isinstance(p_, (str, pai.av.Atom)):
+                    raise AnalysisError(f"{name} over a repeated piece")
+            pieces = list(s.pieces)
+            order = range(len(pieces)) if name == "partition" else range(len(pieces) - 1, -1, -1)
+            for i_ in order:
+                p_ = pieces[i_]
+                if isinstance(p_, str) and sep in p_:
+                    j_ = p_.index(sep) if name == "partition" else p_.rindex(sep)
+                    before = pai._simplify(SStr(pieces[:i_] + ([p_[:j_]] if p_[:j_] else [])))
+                    after = pai._simplify(SStr(([p_[j_ + 1 :]] if p_[j_ + 1 :] else []) + pieces[i_ + 1 :]))
+                    return (before, sep, after)
+            return (recv, "", "") if name == "partition" else ("", "", recv)
         if name in ("isdigit", "isalpha", "isalnum", "isupper", "islower", "isspace", "isnumeric", "isidentifier") and s.is_concrete():
             return getattr(s.concrete(), name)()
         if name in ("removeprefix", "removesuffix"):
@@ -429,6 +450,8 @@ def call_method(fr, recv: Any, name: str, args: list, kwargs: dict, node: ast.AS
             return SOpaque("bytes")
         if name == "count" and s.is_concrete():
             return s.concrete().count(_c(args[0]))
+        if not hasattr(str, name):
+            raise pai.PyExc("AttributeError", (f"'str' object has no attribute '{name}'",), node)
         raise AnalysisError(f"str method {name} not modelled")
     # --- lists --------------------------------------------------------------------------------
     if isinstance(recv, list):
@@ -465,12 +488,16 @@ def call_method(fr, recv: Any, name: str, args: list, kwargs: dict, node: ast.AS
         if name == "clear":
             recv.clear()
             return None
+        if not hasattr(list, name):
+            raise pai.PyExc("AttributeError", (f"'list' object has no attribute '{name}'",), node)
         raise AnalysisError(f"list method {name}")
     if isinstance(recv, tuple):
         if name == "index":
             return recv.index(args[0])
         if name == "count":
             return recv.count(args[0])
+        if not hasattr(tuple, name):
+            raise pai.PyExc("AttributeError", (f"'tuple' object has no attribute '{name}'",), node)
         raise AnalysisError(f"tuple method {name}")
     if isinstance(recv, set) and name in ("add", "discard", "remove", "update", "clear"):
         if name == "add":
@@ -504,6 +531,8 @@ def call_method(fr, recv: Any, name: str, args: list, kwargs: dict, node: ast.AS
             for a in args:
                 out_s = out_s | frozenset(fr.iterate(a, True))
             return out_s
+        if not hasattr(set, name):
+            raise pai.PyExc("AttributeError", (f"'set' object has no attribute '{name}'",), node)
         raise AnalysisError(f"set method {name}")
     # --- dicts --------------------------------------------------------------------------------
     if isinstance(recv, (dict, ReprDict)):
